@@ -8,6 +8,6 @@ CONSTANTS
   AllowMissing = FALSE
   DiagChoices = {0}
   Rounds = 1
-INVARIANTS Acyclic CycleRejected DagBuilds ParsedOnce TopoOK
+INVARIANTS EmitOut Acyclic CycleRejected DagBuilds ParsedOnce TopoOK
 POSTCONDITION TraceAccepted
 CHECK_DEADLOCK FALSE
